@@ -11,23 +11,27 @@ structure FrameL (S : Static) (lvl : Comp) (st st' : SimSt) : Prop where
   devs : ∀ x, ¬ S.Below lvl x → agetD st'.devs x {} = agetD st.devs x {}
   count : ∀ x, ¬ S.Below lvl x → agetD st'.count x 0 = agetD st.count x 0
   sched : ∀ s, s ≠ lvl → ¬ S.Below lvl s → st'.sched s = st.sched s
+  /-- only the schedulers of the level and of system components are ever written -/
+  sched_dev : ∀ s, s ≠ lvl → S.isSys s = false → st'.sched s = st.sched s
 
 theorem FrameL.refl (S : Static) (lvl : Comp) (st : SimSt) : FrameL S lvl st st :=
-  ⟨fun _ _ => rfl, fun _ _ => rfl, fun _ _ _ => rfl⟩
+  ⟨fun _ _ => rfl, fun _ _ => rfl, fun _ _ _ => rfl, fun _ _ _ => rfl⟩
 
 theorem FrameL.trans {S : Static} {lvl : Comp} {st st' st'' : SimSt} (h : FrameL S lvl st st')
     (h' : FrameL S lvl st' st'') : FrameL S lvl st st'' :=
   ⟨fun x hx => (h'.devs x hx).trans (h.devs x hx), fun x hx => (h'.count x hx).trans (h.count x hx),
-    fun s h1 h2 => (h'.sched s h1 h2).trans (h.sched s h1 h2)⟩
+    fun s h1 h2 => (h'.sched s h1 h2).trans (h.sched s h1 h2),
+    fun s h1 h2 => (h'.sched_dev s h1 h2).trans (h.sched_dev s h1 h2)⟩
 
 /-- the answer to one dispatch touches only what belongs to the addressed component -/
 structure FrameA (S : Static) (c : Comp) (st st' : SimSt) : Prop where
   devs : ∀ x, ¬ S.Own c x → agetD st'.devs x {} = agetD st.devs x {}
   count : ∀ x, ¬ S.Own c x → agetD st'.count x 0 = agetD st.count x 0
   sched : ∀ s, ¬ S.Own c s → st'.sched s = st.sched s
+  sched_dev : ∀ s, S.isSys s = false → st'.sched s = st.sched s
 
 theorem FrameA.refl (S : Static) (c : Comp) (st : SimSt) : FrameA S c st st :=
-  ⟨fun _ _ => rfl, fun _ _ => rfl, fun _ _ => rfl⟩
+  ⟨fun _ _ => rfl, fun _ _ => rfl, fun _ _ => rfl, fun _ _ => rfl⟩
 
 theorem simWake_sched (st : SimSt) (lvl c : Comp) (callAt : Option SimTime) (s : Comp) (h : s ≠ lvl) :
     (simWake st lvl c callAt).sched s = st.sched s := by
@@ -60,6 +64,7 @@ theorem simAnswer_frame {S : Static} (hS : S.WF) {orc : Oracle} {fuel : Nat}
         exact FrameA.refl _ _ _
       · split at h
         · -- a system component
+          rename_i hsysc
           split at h
           · cases h
           · rename_i st2 outCh hr
@@ -75,10 +80,14 @@ theorem simAnswer_frame {S : Static} (hS : S.WF) {orc : Oracle} {fuel : Nat}
               · rw [hS.pseudo_fresh.1] at h'; cases h'
               · rwa [hLc2] at hne
             have hnb : ∀ x, ¬ S.Own c x → ¬ S.Below c x := fun x hx hb => hx (Or.inr ⟨hcne, hb⟩)
-            refine ⟨fun x hx => hf.devs x (hnb x hx), fun x hx => hf.count x (hnb x hx), ?_⟩
-            intro s hs
-            have hsc : s ≠ c := fun h' => hs (Or.inl h')
-            rw [hf.sched s hsc (hnb s hs), SimSt.sched_upsert, if_neg (Ne.symm hsc)]
+            refine ⟨fun x hx => hf.devs x (hnb x hx), fun x hx => hf.count x (hnb x hx), ?_, ?_⟩
+            · intro s hs
+              have hsc : s ≠ c := fun h' => hs (Or.inl h')
+              rw [hf.sched s hsc (hnb s hs), SimSt.sched_upsert, if_neg (Ne.symm hsc)]
+            · intro s hs
+              have hsc : s ≠ c := by
+                intro h'; rw [h', hsysc] at hs; cases hs
+              rw [hf.sched_dev s hsc hs, SimSt.sched_upsert, if_neg (Ne.symm hsc)]
         · -- a device
           split at h
           · cases h
@@ -86,7 +95,7 @@ theorem simAnswer_frame {S : Static} (hS : S.WF) {orc : Oracle} {fuel : Nat}
             · cases h
             · simp only [Except.ok.injEq, Prod.mk.injEq] at h
               obtain ⟨rfl, _⟩ := h
-              refine ⟨fun x hx => ?_, fun x hx => ?_, fun s _ => rfl⟩
+              refine ⟨fun x hx => ?_, fun x hx => ?_, fun s _ => rfl, fun s _ => rfl⟩
               · have hxc : c ≠ x := fun h' => hx (Or.inl h'.symm)
                 simp [sim_agetD_upsert, hxc]
               · have hxc : c ≠ x := fun h' => hx (Or.inl h'.symm)
@@ -150,7 +159,7 @@ theorem tickLoop_frame {S : Static} (hS : S.WF) {orc : Oracle} {fuel : Nat}
             rcases List.mem_append.1 hd' with hd' | hd'
             · exact hpc d' (by rw [hp]; exact List.mem_cons_of_mem _ hd')
             · exact (sim_scheduleLoop_mem hsl hd').1
-          · refine hf.trans ⟨fun x hx => ?_, fun x hx => ?_, fun s h1 h2 => ?_⟩
+          · refine hf.trans ⟨fun x hx => ?_, fun x hx => ?_, fun s h1 h2 => ?_, fun s h1 h2 => ?_⟩
             · show agetD (simWake st1 L.name d.comp callAt).devs x {} = _
               by_cases ho : S.Own d.comp x
               · rcases hown x ho with hb | he
@@ -169,6 +178,8 @@ theorem tickLoop_frame {S : Static} (hS : S.WF) {orc : Oracle} {fuel : Nat}
                 · exact absurd hb h2
                 · rw [he]
               · exact hfa.sched s ho
+            · rw [simWake_sched _ _ _ _ _ h1]
+              exact hfa.sched_dev s h2
 
 /-- **frame of one tick of one scheduler level** -/
 theorem tickLevel_frame {S : Static} (hS : S.WF) (orc : Oracle) :
